@@ -75,5 +75,6 @@ Section TagGen.
 
   (* the `A={...}` initialiser *)
   Definition bmc_init (b : bmc) : str :=
-    lit "{" ++ join (lit ",") (map (fun kv => lit_str (fst kv) ++ lit ":new Array(" ++ to_dec (snd kv) ++ lit ")") (list_fields b)) ++ lit "}".
+    lit "Object.assign(Object.create(null),{" ++
+    join (lit ",") (map (fun kv => lit_str (fst kv) ++ lit ":new Array(" ++ to_dec (snd kv) ++ lit ")") (list_fields b)) ++ lit "})".
 End TagGen.
